@@ -43,7 +43,11 @@ def match(kf, pid, bucket, case):
         m = e["match"]
         if not re.search(m["bucket_regex"], bucket):
             continue
-        pred = PREDICATES.get(m.get("predicate", "always"))
+        pname = m.get("predicate", "always")
+        if pname.startswith("region:"):
+            pred = _region_pred(pname.split(":", 1)[1])
+        else:
+            pred = PREDICATES.get(pname)
         if pred is None:
             continue
         try:
@@ -86,3 +90,16 @@ PREDICATES["has_take_and_broadcast"] = lambda case: any(o in ("take", "shuffle")
 )
 PREDICATES["has_repeat"] = _mk_has("repeat")
 PREDICATES["has_vindex"] = lambda case: "vindex" in json.dumps(case)
+
+
+def _region_pred(fid):
+    """Predicate = the exclusion region of finding ``fid`` (needs the NumPy values)."""
+
+    def pred(case):
+        from vf import exclusions
+        from vf.gen import programs as P
+
+        prog = case.get("program", case)
+        return bool(exclusions.region(fid)(prog, P.eval_np(prog)))
+
+    return pred
